@@ -214,13 +214,22 @@ class Layouts:
             return lx
         if last in ("randn", "rand", "randint", "empty", "zeros", "ones") and not is_method:
             sizes = []
-            for a in c.args:
+            star_lead = None
+            arglist = list(c.args)
+            if arglist and isinstance(arglist[0], (ast.Tuple, ast.List)):
+                arglist = list(arglist[0].elts)
+            for a in arglist:
                 if isinstance(a, ast.Starred):
+                    # *x.shape / *x.size(): the leading size is that of x's leading axis
+                    v = a.value
+                    base = v.value if isinstance(v, ast.Attribute) and v.attr == "shape" else (v.func.value if isinstance(v, ast.Call) and isinstance(v.func, ast.Attribute) and v.func.attr == "size" and not v.args else None)
+                    if base is not None and len(sizes) < 2 and self.lead(base) == ROWS:
+                        star_lead = "C"
                     break
                 sizes.append(a)
-            if sizes and isinstance(sizes[0], (ast.Tuple, ast.List)):
-                sizes = [x for x in sizes[0].elts if not isinstance(x, ast.Starred)]
             tags = [self.tag(s) for s in sizes[:2]]
+            if star_lead is not None and len(tags) < 2:
+                tags.append(star_lead)
             if tags and tags[0] == "CN":
                 return IID
             if len(tags) >= 2 and set(tags) == {"C", "N"}:
